@@ -305,6 +305,80 @@ func c16BuildEdits(tier string) core.Source {
 	}}
 }
 
+// c16BuildLongRuns: literal runs around and above the sender's mid-file flush
+// threshold (block length + its 256 KiB chunk size) and around its read window,
+// followed by known data: matching must resume after every such run.
+func c16BuildLongRuns(tier string) core.Source {
+	const chunk = 256 * 1024
+	type cs struct {
+		B     int
+		n     int
+		kind  byte // 'i' insert, 'r' replace, 'p' prepend, '2' two inserts
+		ln    int
+		where int // offset of the (first) edit
+	}
+	var cases []cs
+	Bs := []int{700, 1024}
+	if tier == "thorough" {
+		Bs = append(Bs, 2048, 8192)
+	}
+	for _, B := range Bs {
+		n := 3*chunk + 12345
+		for _, ln := range []int{chunk - 1, chunk, chunk + B - 1, chunk + B, chunk + B + 1, chunk + 3*B + 17, 2*chunk + B + 5, 3*chunk + 2*B + 1} {
+			for _, where := range []int{0, 1001, chunk - 7, n / 2} {
+				kinds := []byte{'i', 'r'}
+				if where == 0 {
+					kinds = []byte{'p'}
+				}
+				for _, k := range kinds {
+					if tier != "thorough" && k == 'r' && where != 1001 {
+						continue
+					}
+					cases = append(cases, cs{B, n, k, ln, where})
+				}
+			}
+		}
+		cases = append(cases, cs{B, n, '2', chunk + B + 1, 1001}, cs{B, n, '2', chunk + 3*B, chunk - 7})
+	}
+	return core.FuncSource{N: len(cases), F: func(i int) core.Result {
+		c := cases[i]
+		basis := genData(famHash, c.n, uint32(7000+c.B))
+		res := core.Result{Case: fmt.Sprintf("long literal run: B=%d basis=%d bytes, %c of %d bytes at offset %d", c.B, c.n, c.kind, c.ln, c.where)}
+		ins := genData(famHash, c.ln, 4711)
+		var target []byte
+		inserted, edits := c.ln, 1
+		switch c.kind {
+		case 'i', 'p':
+			target = append(append(append([]byte{}, basis[:c.where]...), ins...), basis[c.where:]...)
+		case 'r':
+			end := min(c.where+c.ln, c.n-chunk-2*c.B) // keep more than one chunk of known data after the run
+			ins = ins[:end-c.where]
+			inserted = len(ins)
+			target = append(append(append([]byte{}, basis[:c.where]...), ins...), basis[end:]...)
+		case '2':
+			second := genData(famHash, c.ln, 4712)
+			at2 := c.where + chunk + 5*c.B + 3
+			target = append(append(append(append(append([]byte{}, basis[:c.where]...), ins...), basis[c.where:at2]...), second...), basis[at2:]...)
+			inserted, edits = 2*c.ln, 2
+		}
+		resp, sums, err := c16Ask(target, basis, int32(c.B))
+		cnt(&res, "transitions", 1)
+		cnt(&res, "states", 1)
+		cnt(&res, "traces_validated_against_impl", 1)
+		if err != nil {
+			res.Fail = core.Fail("sender_stopped", err.Error())
+			return res
+		}
+		if f := c16Judge(resp, sums, basis, target, inserted, edits, res.Case); f != nil {
+			res.Fail = f
+			return res
+		}
+		res.Nontrivial = true
+		res.Outcome = c16Bucket(c.B)
+		return res
+	}}
+}
+
 // c16BuildReal: whole sessions with the real generator; literal bytes are
 // counted by the wire tap.
 func c16BuildReal(tier string) core.Source {
@@ -395,13 +469,14 @@ func init() {
 	core.Register(&core.Prop{
 		ID:    "C16",
 		Level: "model_checking",
-		Rule: "shifts: target = s fresh bytes + basis for every s in 0..B (B in {8,32,700}, basis 40 blocks + remainder) served by the real sender against reference-computed sums; edits: every edit script of depth <=2 over {insert,delete,replace} x 5 lengths x 9 offsets, plus identical file, prepend, append and all 24 permutations of 4 blocks; real: whole lib-pull sessions with the real generator's block size and the literal bytes counted by a wire tap. " +
+		Rule: "shifts: target = s fresh bytes + basis for every s in 0..B (B in {8,32,700}, basis 40 blocks + remainder) served by the real sender against reference-computed sums; edits: every edit script of depth <=2 over {insert,delete,replace} x 5 lengths x 9 offsets, plus identical file, prepend, append and all 24 permutations of 4 blocks; long-runs: one or two inserted / replaced / prepended runs of 8 lengths around the sender's flush threshold and read window (256 KiB-1 .. 3*256 KiB+2B+1) at 4 positions of a 780 KiB basis, each followed by more than one chunk of known data; real: whole lib-pull sessions with the real generator's block size and the literal bytes counted by a wire tap. " +
 			"oracle: stream denotes the target and literal bytes <= inserted + 3B per edit + B (0 for identical files and block permutations). states/transitions = requests judged; non-trivial = case with at least one edit",
 		Assum: []string{"counter-hash content has no accidental repeated blocks", "bound slack 3B per edit (an edit spoils at most the two partial blocks around it) + B for the remainder block"},
 		Parts: func(tier string) []core.Part {
 			return []core.Part{
 				{Name: "shifts", Build: c16BuildShifts},
 				{Name: "edits", Build: c16BuildEdits},
+				{Name: "long-runs", Build: c16BuildLongRuns},
 				{Name: "real", Build: c16BuildReal},
 			}
 		},
